@@ -192,7 +192,10 @@ theorem filter_predicates (pl : Bytes) (ts : List Tok) :
   ⟨applyMask_map _ _, fun _ => applyMask_map _ _, applyMask_map _ _, applyMask_map _ _, applyMask_map _ _,
    applyMask_map _ _, applyMask_map _ _, applyMask_map _ _⟩
 
-/-- `Attenuate` is all or nothing: on any failure the bundle is what it was; on success every
+/-- `Attenuate` is all or nothing: on any failure the bundle is what it was — the WHOLE token list,
+and a `Tok.verified` carries its verified caveat set, so the verified sets (what `Validate`,
+`AllowsAccess`, `IsForOrg` look at) are covered as well as the printed text
+(`failed_attenuate_changes_nothing` spells it out); on success every
 permission token (and no other) is replaced by its attenuation — `Add` on a clone, printed — keeping
 its kind, and a verified token's verified caveats gain exactly the caveats `Add` appended -/
 theorem attenuate_all_or_nothing (b : Bundle) (items : List (AddItem Bytes)) :
@@ -208,6 +211,26 @@ theorem attenuate_all_or_nothing (b : Bundle) (items : List (AddItem Bytes)) :
         Concrete.encode (add c items).1 = (m', some bytes) ∧ s' = macString bytes ∧
         added = (add c items).1.cavs.drop c.cavs.length) :=
   ⟨attenuate_err b items, attenuate_ok b items, attTok_kind items, attTok_verified items, attMac_spec items⟩
+
+/-- **a failed `Attenuate` changes nothing**, whichever token made it fail and wherever that token
+stands: not the printed header, not the kinds, and not the verified caveat sets — so `Validate`, the
+`AllowsAccess` / `IsForOrg` filters and every later operation answer exactly as before, also for the
+tokens on which the attenuation by itself would have succeeded -/
+theorem failed_attenuate_changes_nothing (b : Bundle) (items : List (AddItem Bytes)) (h : (b.attenuate items).2 = true) :
+    (b.attenuate items).1 = b ∧ (b.attenuate items).1.verifiedSets = b.verifiedSets ∧
+    (b.attenuate items).1.header = b.header ∧ (∀ rs, (b.attenuate items).1.validate rs = b.validate rs) ∧
+    (∀ f, (b.attenuate items).1.select f = b.select f) := by
+  have e := attenuate_err b items h
+  rw [e]
+  exact ⟨rfl, rfl, rfl, fun _ => rfl, fun _ => rfl⟩
+
+/-- one token failing is enough: the attenuation of the whole bundle fails as soon as `attTok` fails on
+some permission token (a sibling with a third-party caveat for the same location, a finalised proof
+at the permission location, …) -/
+theorem attenuate_fails_if_one_token_fails (b : Bundle) (items : List (AddItem Bytes)) (t : Tok) (ht : t ∈ b.ts)
+    (hp : b.isPerm t = true) (hf : Bundle.attTok items t = none) : b.attenuate items = (b, true) := by
+  unfold Bundle.attenuate Bundle.attenuateTs
+  rw [mapM_none_of_mem _ _ t ht (by simp only [Bundle.isPerm] at hp; simp [hp, hf])]
 
 /-- **the verified set after attenuation**: a verified permission token of a successfully attenuated
 bundle is replaced by a verified token whose verified set is the old set followed by EXACTLY the
@@ -478,6 +501,8 @@ end Macaroon.Props.C13
 #print axioms Macaroon.Props.C13.filter_effect
 #print axioms Macaroon.Props.C13.filter_predicates
 #print axioms Macaroon.Props.C13.attenuate_all_or_nothing
+#print axioms Macaroon.Props.C13.failed_attenuate_changes_nothing
+#print axioms Macaroon.Props.C13.attenuate_fails_if_one_token_fails
 #print axioms Macaroon.Props.C13.attenuate_verified_set
 #print axioms Macaroon.Props.C13.add_single_third_party
 #print axioms Macaroon.Props.C13.third_party_caveat_clears_nothing
